@@ -206,6 +206,48 @@ def strip_api(line):
     return " ".join(out)
 
 
+def coq_crosscheck(ctx, lines, impl):
+    """a few short histories evaluated by coqc itself (vm_compute run_ops) and compared with what the
+    implementation did: guards the extraction and the OCaml driver"""
+    import re
+    picked = [(l, o) for l, (o, _) in zip(lines, impl)
+              if l.startswith("hist") and o and "PANIC" not in o and 3 <= len(l.split(" ")) <= 14][:8]
+    if not picked:
+        return
+    terms = []
+    for l, _ in picked:
+        ops = []
+        for o in l.split(" ")[1:]:
+            if o == "a":
+                ops.append("OpAlloc")
+            else:
+                f = o.split(":")
+                ops.append("OpSend (mk %s %s %s)" % ("BE" if f[1] == "B" else "LE", "None" if f[2] == "-" else "(Some %s)" % f[2],
+                                                    "255" if f[3] == "b" else "0"))
+        terms.append("Eval vm_compute in (match run_ops flds [%s] conn_init with Ok (_, evs) => Some (map obs evs) | _ => None end)." % "; ".join(ops))
+    v = ("From RB Require Import Base.Prelude Conn.Serial Conn.SerialProofs.\n"
+         "Definition mk (bo : endian) (p : option N) (flags : N) : message := {| msg_typ := MCall; msg_flags := flags; msg_dyn := {| dh_interface := None; dh_member := None; dh_object := None; dh_destination := None; dh_serial := p; dh_sender := None; dh_signature := None; dh_error_name := None; dh_response_serial := None; dh_num_fds := None |}; msg_bo := bo; msg_body := []; msg_raw_fds := [] |}.\n"
+         "Definition flds (m : message) : option (list N) := if msg_flags m =? 255 then None else Some [].\n"
+         "Definition obs (e : event) : N * N * N := match e with EvAlloc s => (0, s, 0) | EvSent _ r hb => (1, r, match wire_serial hb with Some s => s | None => 0 end) | EvSendErr _ => (2, 0, 0) end.\n"
+         + "\n".join(terms) + "\n")
+    out = vlib.coq_eval("c13_cross", v)
+    blocks = re.split(r"^\s*= ", out, flags=re.M)[1:]
+    if len(blocks) != len(picked):
+        ctx.tie_broken("in-Coq evaluation printed %d results for %d terms" % (len(blocks), len(picked)), out[-1500:])
+        return
+    for blk, (l, o) in zip(blocks, picked):
+        got = [tuple(int(x) for x in t) for t in re.findall(r"\(\s*(\d+),\s*(\d+),\s*(\d+)\s*\)", blk)]
+        want = []
+        for t in o.split(" "):
+            f = t.split(":")
+            want.append((0, int(f[1]), 0) if f[0] == "a" else (2, 0, 0) if t == "e" else (1, int(f[1]), int(f[2])))
+        ctx.count("in_coq_vm_compute_cases")
+        if got != want:
+            ctx.disagreements_checked += 1
+            ctx.tie_broken("correspondence: Coq's own evaluation of the model (vm_compute run_ops) differs from the implementation",
+                           "line: %s\nimpl: %s\ncoq: %s" % (l[:300], o[:300], " ".join(blk.split())[:400]))
+
+
 def run(ctx):
     thorough = ctx.tier == "thorough"
     ctx.rule = ("histories = 1-200 operations on one real connection drawn from alloc_serial, send_message+write_all / "
@@ -250,6 +292,8 @@ def run(ctx):
     finally:
         shutil.rmtree(tmp, ignore_errors=True)
     model = run_sharded(drv, [strip_api(l) for l in lines], timeout=1200 if thorough else 300)
+
+    coq_crosscheck(ctx, lines, impl)
 
     # exhaustion: predicted by theorem C13_history_outcome (nallocs < 2^32-1 <-> no panic) and Conn/SerialExamples.v ex_last_serial
     out, err = impl[-1]
